@@ -138,3 +138,66 @@ package main
 //@   calls Volume.IndexTo#1: set n = n + 1
 //@   loop 1: invariant !bad && n == $i && len(vols) == $n
 //@   calls ResponseWriter.Write#1: requires !bad && n == len(vols) && string($0) == "\n"
+
+// ------------------------------------------------- C04: trash / touch guards
+//@ iface FileInfo.ModTime pure
+//@   modifies nothing
+//@ iface Volume.Mtime
+//@   modifies nothing
+//@ iface Volume.Trash
+//@   modifies nothing
+
+// Trash: the block file is removed or renamed only on a writable volume with
+// trashing enabled, under the volume lock and the file lock, after a Stat taken
+// under those locks showed an age of at least the signature TTL; the trash name
+// is <path>.trash.<deadline in whole seconds>.
+//@ func UnixVolume.Trash property C04 safety -bounds
+//@   ghost vlocked bool = false
+//@   ghost flocked bool = false
+//@   ghost stok bool = false
+//@   ghost mt time.Time = 0
+//@   ghost age time.Duration = 0
+//@   ghost now time.Time = 0
+//@   calls UnixVolume.lock#1: set vlocked = ($r == nil)
+//@   calls UnixVolume.lockfile#1: requires vlocked
+//@   calls UnixVolume.lockfile#1: set flocked = ($r == nil)
+//@   calls osWithStats.Stat#1: requires vlocked && flocked && $0 == p
+//@   calls osWithStats.Stat#1: set stok = ($r1 == nil)
+//@   calls FileInfo.ModTime#1: requires $recv == fi
+//@   calls FileInfo.ModTime#1: set mt = $r
+//@   calls time.Since#1: requires $0 == mt
+//@   calls time.Since#1: set age = $r
+//@   calls time.Now#1: set now = $r
+//@   calls osWithStats.Remove#1: requires !old(v.volume.ReadOnly) && old(v.cluster.Collections.BlobTrash) && vlocked && flocked && stok && $0 == p && age >= arvados.Duration.Duration(v.cluster.Collections.BlobSigningTTL)
+//@   calls osWithStats.Rename#1: requires !old(v.volume.ReadOnly) && old(v.cluster.Collections.BlobTrash) && vlocked && flocked && stok && $0 == p && age >= arvados.Duration.Duration(v.cluster.Collections.BlobSigningTTL)
+//@   calls osWithStats.Rename#1: requires $1 == p + ".trash." + itoa(time.Time.Unix(time.Time.Add(now, arvados.Duration.Duration(v.cluster.Collections.BlobTrashLifetime))))
+
+// Touch: the timestamp is set by path, under the volume lock and the file lock
+// (so that a block renamed away by a concurrent Trash makes Touch fail), never
+// on a read-only volume; nil only if Chtimes returned nil.
+//@ func UnixVolume.Touch property C04 safety -bounds
+//@   ghost vlocked bool = false
+//@   ghost flocked bool = false
+//@   ghost cherr error = nil
+//@   calls UnixVolume.lock#1: set vlocked = ($r == nil)
+//@   calls UnixVolume.lockfile#1: set flocked = ($r == nil)
+//@   calls os.Chtimes#1: requires !old(v.volume.ReadOnly) && vlocked && flocked && $0 == p && $1 == $2
+//@   calls os.Chtimes#1: set cherr = $r
+//@   ensures result == nil ==> cherr == nil && vlocked && flocked
+
+// TrashItem: Trash is requested only for a block whose request timestamp is at
+// least the TTL old and whose stored mtime equals the requested mtime to the
+// nanosecond, only with trashing enabled, on writable mounts (or the named mount
+// looked up as writable).
+//@ func TrashItem property C04
+//@   ghost age time.Duration = 0
+//@   ghost smt int64 = 0
+//@   ghost mok bool = false
+//@   calls time.Since#1: requires $0 == time.Unix(0, trashRequest.BlockMtime)
+//@   calls time.Since#1: set age = $r
+//@   calls RRVolumeManager.Lookup#1: requires $1 == true
+//@   calls Volume.Mtime#1: requires $0 == trashRequest.Locator
+//@   calls Volume.Mtime#1: set mok = ($r1 == nil)
+//@   calls Volume.Mtime#1: set smt = time.Time.UnixNano($r0)
+//@   loop 1: invariant age >= arvados.Duration.Duration(old(cluster.Collections.BlobSigningTTL)) && trashRequest == old(trashRequest) && cluster == old(cluster)
+//@   calls Volume.Trash#1: requires age >= arvados.Duration.Duration(old(cluster.Collections.BlobSigningTTL)) && mok && smt == trashRequest.BlockMtime && $0 == trashRequest.Locator && cluster.Collections.BlobTrash
